@@ -319,6 +319,9 @@ class BuiltinMixin(object):
       if isinstance(src, Exc):
         yield st1, src
         continue
+      if self.opaque_iterable(src):
+        yield from self.opaque_comp(name, gen.elt, g, src, st1)
+        continue
       if name in ('all', 'any'):
         cx = self.spec_ctx(st1)
         it = src
